@@ -532,6 +532,7 @@ func (w *watch) stop() {
 	}
 
 	_ = w.watcher.Close()
+	w.watcher = nil
 	w.tracked = nil
 	w.missing = nil
 }
@@ -565,6 +566,14 @@ func (w *watch) watch(fsw *fsnotify.Watcher, m *sync.Mutex, refresh func() error
 			}
 
 			m.Lock()
+			if w.watcher != fsw {
+				// The Cache was reconfigured while we were waiting for the
+				// lock: this watcher has been stopped or replaced, and the
+				// directory error map we were started with is not the one
+				// in use any more. The new configuration has refreshed.
+				m.Unlock()
+				return
+			}
 			if event.Op == fsnotify.Remove && w.tracked[event.Name] {
 				w.update(dirErrors, event.Name)
 			} else {
